@@ -365,10 +365,12 @@ Record cmd := {
   c_star : bool;                 (* -type=* *)
   c_file : string;               (* -file= *)
   c_sepflag : bool;              (* -sep / -separate *)
-  c_getset : bool; c_json : bool; c_opt : bool;      (* new *)
+  c_getset : bool; c_json : bool; c_opt : bool; c_short : bool;      (* new *)
   c_ejson : bool; c_etext : bool;                    (* enum *)
   c_toonly : bool; c_fromonly : bool                 (* map -way *)
 }.
+(* the two flags of the functional-options code: -opt and -short (names of the option functions) *)
+Definition c_optflags (c : cmd) : bool * bool := (c_opt c, c_short c).
 Definition specified (c : cmd) : bool := match c_types c with [] => false | _ => true end.
 Definition separate (c : cmd) : bool := specified c || c_sepflag c.
 
@@ -497,7 +499,7 @@ Record ndata := {
   nd_deflist : list string; nd_defmap : list (string * string);
   nd_getset : bool; nd_getters : list string; nd_setters : list string;
   nd_getifaces : list string; nd_setifaces : list string;
-  nd_option : bool;
+  nd_option : bool; nd_short : bool;
   nd_json : bool; nd_jsonlist : list string; nd_jsontags : list (string * string);
   nd_jsonget : list string; nd_jsonset : list string; nd_exported : list string
 }.
@@ -505,7 +507,7 @@ Definition ndata0 (cmdline : string) : ndata :=
   {| nd_cmd := cmdline; nd_type := ""; nd_imports := []; nd_tplist := ""; nd_tpnames := ""; nd_all := [];
      nd_newmap := []; nd_typemap := []; nd_params := ""; nd_body := ""; nd_deflist := []; nd_defmap := [];
      nd_getset := false; nd_getters := []; nd_setters := []; nd_getifaces := []; nd_setifaces := [];
-     nd_option := false; nd_json := false; nd_jsonlist := []; nd_jsontags := []; nd_jsonget := []; nd_jsonset := [];
+     nd_option := false; nd_short := false; nd_json := false; nd_jsonlist := []; nd_jsontags := []; nd_jsonget := []; nd_jsonset := [];
      nd_exported := [] |}.
 
 (* constructor.Generator: every field that is not a flag *)
@@ -638,7 +640,7 @@ Definition new_finish (c : cmd) (st2 : nstate) (h : hfile) (T : string)
                   nd_setters := if n_setter st3 then sl else [];
                   nd_getifaces := if n_getter st3 then gi else [];
                   nd_setifaces := if n_setter st3 then si else [];
-                  nd_option := c_opt c;
+                  nd_option := c_opt c; nd_short := c_short c;
                   nd_json := c_json c && need;
                   nd_jsonlist := if c_json c then map fe_name jlist else [];
                   nd_jsontags := if c_json c then fold_left (fun m f => upsert (fe_name f) (tagof f) m) plain [] else [];
@@ -663,12 +665,30 @@ Definition new_make := new_make_gen all_resets.
 Definition tyof (d : ndata) (f : string) : string :=
   match alookup f (nd_typemap d) with Some t => t | None => "" end.
 
+(* an import of a hand-written file: "path" or "name path" (renamed).  Types are kept in canonical form (time.Duration)
+   in the model, so a type is tested against the path; text copied verbatim from the source (def= values) against the
+   local name *)
+Fixpoint after_space (s : string) : option string :=
+  match s with
+  | EmptyString => None
+  | String c r => if Ascii.eqb c " "%char then Some r else after_space r
+  end.
+Definition imp_path (i : string) : string := match after_space i with Some p => p | None => i end.
+Definition imp_name (i : string) : string :=
+  match after_space i with
+  | Some p => substring 0 (String.length i - String.length p - 1) i
+  | None => i
+  end.
+
 (* constructor.tmpl *)
 Definition new_render (d : ndata) : afile :=
   let T := nd_type d in
   let tn := if nd_tplist d =? "" then T else T ++ "[" ++ nd_tpnames d ++ "]" in
   let hw_needs := nd_imports d in     (* the imports of the declaring file are offered; goimports keeps the used ones *)
-  let uses (ty : string) := filter (fun i => has_prefix (i ++ ".") ty || has_prefix ("*" ++ i ++ ".") ty) hw_needs in
+  (* types are printed by go/types with the package NAME whatever the file calls the import: goimports then adds the plain
+     import and drops an unused renamed one; only verbatim text keeps a renamed import alive *)
+  let uses (ty : string) := map imp_path (filter (fun i => has_prefix (imp_path i ++ ".") ty || has_prefix ("*" ++ imp_path i ++ ".") ty) hw_needs) in
+  let uses_text (txt : string) := filter (fun i => contains (imp_name i ++ ".") txt) hw_needs in
   let ctor := {| d_name := "New" ++ T;
                  d_kind := KCtor (flat_map (fun f => match alookup f (nd_newmap d) with
                                                      | Some p => [(p, tyof d f, f, f)]
@@ -677,17 +697,19 @@ Definition new_render (d : ndata) : afile :=
                  d_doc := true; d_tail := false;
                  (* the parameter list prints every field with ITS OWN type (newParamsList walks g.fields), so two fields
                     of one name reached at the same depth (K_ctor_ambiguous_promoted) both count, whatever TypeMap keeps *)
-                 d_needs := filter (fun i => contains (" " ++ i ++ ".") (" " ++ nd_params d) ||
-                                             contains (" *" ++ i ++ ".") (" " ++ nd_params d)) hw_needs;
+                 d_needs := map imp_path (filter (fun i => contains (" " ++ imp_path i ++ ".") (" " ++ nd_params d) ||
+                                                           contains (" *" ++ imp_path i ++ ".") (" " ++ nd_params d)) hw_needs) +++
+                            filter (fun i => contains (imp_name i ++ ".") (nd_body d)) hw_needs;
                  d_toks := [nd_tplist d; nd_params d; nd_body d] |} in
   let opt : list adecl := if nd_option d then
                [{| d_name := T ++ ".With"; d_kind := KMethod T; d_doc := true; d_tail := false;
                    d_needs := ["github.com/lopolopen/shoot"]; d_toks := [tn; bstr (match nd_deflist d with [] => false | _ => true end)] |}] +++
-               map (fun f => {| d_name := pascal f ++ "Of" ++ T; d_kind := KFunc; d_doc := true; d_tail := false;
+               map (fun f => {| d_name := (if nd_short d then pascal f else pascal f ++ "Of" ++ T); d_kind := KFunc; d_doc := true; d_tail := false;
                                 d_needs := "github.com/lopolopen/shoot" :: uses (tyof d f); d_toks := [f; tyof d f; tn] |}) (nd_all d) +++
                match nd_deflist d with
                | [] => []
-               | _ => [{| d_name := T ++ ".SetDefault"; d_kind := KMethod T; d_doc := true; d_tail := false; d_needs := [];
+               | _ => [{| d_name := T ++ ".SetDefault"; d_kind := KMethod T; d_doc := true; d_tail := false;
+                          d_needs := flat_map (fun f => uses_text (match alookup f (nd_defmap d) with Some x => x | None => "" end)) (nd_deflist d);
                           d_toks := map (fun f => f ++ "=" ++ match alookup f (nd_defmap d) with Some x => x | None => "" end) (nd_deflist d) |}]
                end
              else [] in
